@@ -1,4 +1,253 @@
-// Mode B (threaded) runner -- placeholder until the threaded engine is built.
+// Mode B (threaded) runner: caller threads, the library's event thread and its reload thread are real pthreads that run
+// one at a time under the baton scheduler (sched.c). One run per process.
 #include "run.h"
+#include "oracles.h"
+#include "simsched.h"
 #include <unistd.h>
-int run_mode_b(const RunCfg &, const std::vector<Step> &, const std::vector<int> *, std::string &) { fprintf(stderr, "SIM-INFRA mode B not built\n"); _exit(2); }
+#include <algorithm>
+
+extern "C" void __tsan_on_report(void *) __attribute__((weak));
+
+namespace {
+
+struct MB {
+  Run *run = nullptr;
+  std::vector<std::vector<Step>> prog;     // per caller thread
+  std::vector<int> tids;
+  uint64_t seed = 0;
+  bool finished = false;
+  int zero_transitions = 0;                // number of instants at which the ledger went to zero outstanding requests
+  int64_t last_activity = 0;
+  std::string end_reason;
+};
+MB *g_mb = nullptr;
+
+const char *why_name(int w) {
+  static const char *n[] = {"none", "mutex", "cond", "join", "waitcall", "sleep", "io", "appwait", "start"};
+  return w >= 0 && w <= 8 ? n[w] : "?";
+}
+
+int64_t ops_now() { return W.now_us; }
+int64_t ops_next_event() { return W.next_flight_time(); }
+void ops_advance(int64_t t) { if (t > W.now_us) W.now_us = t; W.deliver_due(); }
+
+std::string hex64(uint64_t v) { char b[20]; snprintf(b, sizeof b, "%016llx", (unsigned long long)v); return b; }
+
+[[noreturn]] void finish_and_exit(Run &run, int code) {
+  // RUN line (same shape as Mode A) plus the scheduling decisions, then leave without unwinding other threads
+  bool nt = profile_nontrivial(run);
+  JW j; j.obj();
+  j.kv("seed", run.cfg.seed).kv("trace", hex64(W.trace_hash ^ sched_decision_hash())).kv("shape", hex64(W.shape_hash ^ (sched_decision_hash() * 31))).kv("nt", nt);
+  j.kv("steps", (int64_t)sched_steps()).kv("reqs", (int64_t)run.reqs.size()).kv("txs", (int64_t)W.txs.size()).kv("vt_us", W.now_us - run.cfg.t0_us);
+  j.kv("switches", (int64_t)sched_switches()).kv("threads", (int64_t)sched_nthreads());
+  j.key("viol").arr();
+  for (auto &v : run.viol) j.obj().kv("prop", v.prop).kv("oracle", v.oracle).kv("detail", v.detail).end_obj();
+  j.end_arr();
+  j.key("probe").obj(); for (auto &p : run.probe) j.kv(p.first.c_str(), p.second); j.end_obj();
+  std::vector<int> dec(200000);
+  int nd = sched_get_decisions(dec.data(), (int)dec.size());
+  j.key("decisions").arr(); for (int i = 0; i < nd; i++) j.val((int64_t)dec[(size_t)i]); j.end_arr();
+  j.end_obj();
+  printf("RUN %s\n", j.s.c_str());
+  // SUMMARY line for the driver's aggregation
+  JW s; s.obj();
+  s.kv("profile", run.cfg.profile).kv("runs", (int64_t)1).kv("nontrivial", (int64_t)(nt ? 1 : 0)).kv("violations", (int64_t)run.viol.size()).kv("wall_s", 0.0);
+  s.kv("virt_s", (double)(W.now_us - run.cfg.t0_us) / 1e6).kv("reqs", (int64_t)run.reqs.size()).kv("steps", (int64_t)sched_steps()).kv("txs", (int64_t)W.txs.size()).kv("peek", (int64_t)peek_available());
+  s.key("shapes").arr(); if (nt) s.val(hex64(W.shape_hash ^ (sched_decision_hash() * 31))); s.end_arr();
+  s.key("stat").obj();
+  for (auto &p : run.probe) s.kv(("probe." + p.first).c_str(), p.second);
+  for (auto &p : W.stat) if (p.first.compare(0, 4, "cfg.")) s.kv(p.first.c_str(), p.second);
+  for (auto &p : W.fault_armed) s.kv((std::string("fault_armed.") + fault_class_name[p.first]).c_str(), (int64_t)p.second);
+  s.kv((std::string("evsys.") + std::to_string(run.cfg.evsys)).c_str(), (int64_t)1);
+  s.kv((std::string("sched_policy.") + std::to_string(run.cfg.sched_policy)).c_str(), (int64_t)1);
+  s.kv("sched.switches", (int64_t)sched_switches()).kv("sched.points", (int64_t)sched_steps());
+  s.end_obj();
+  s.key("samples").arr();
+  if (nt) { JW e; e.obj().kv("seed", run.cfg.seed).kv("threads", (int64_t)sched_nthreads()).kv("requests", (int64_t)run.reqs.size()).kv("scheduling_points", (int64_t)sched_steps()).kv("context_switches", (int64_t)sched_switches()).end_obj(); s.raw(e.s); }
+  s.end_arr();
+  s.kv("rule", profile_rule(run.cfg.profile));
+  s.end_obj();
+  printf("SUMMARY %s\n", s.s.c_str());
+  fflush(stdout);
+  _exit(code);
+}
+
+std::string thread_table() {
+  std::string o;
+  for (int i = 0; i < sched_nthreads(); i++) {
+    int st = sched_thread_state(i);
+    o += std::string(i ? ", " : "") + sched_thread_name(i) + "#" + std::to_string(i) + "=" + (st == 0 ? "runnable" : st == 1 ? std::string("blocked(") + why_name(sched_thread_why(i)) + ")" : "done");
+  }
+  return o;
+}
+
+void ops_quiescent() {
+  // nothing runnable, no network event, no timed wait: the system can make no further progress on its own
+  Run &run = *g_mb->run;
+  int outstanding = run.outstanding();
+  bool mutex_or_join = false, appwait = false;
+  for (int i = 0; i < sched_nthreads(); i++) if (sched_thread_state(i) == 1) { int w = sched_thread_why(i); if (w == WHY_MUTEX) mutex_or_join = true; if (w == WHY_COND || w == WHY_JOIN) appwait = true; }
+  std::string tt = thread_table();
+  if (mutex_or_join) run.violate("C11", "deadlock", "no thread can run and at least one waits for a mutex: " + tt);
+  else if (outstanding > 0) {
+    std::string who;
+    for (auto &r : run.reqs) if (r.accepted && r.cb_count == 0) { who = std::to_string(r.token) + " (" + req_kind_name[r.kind] + " " + r.name + ", submitted at +" + std::to_string((r.t_submit - run.cfg.t0_us) / 1000) + " ms)"; break; }
+    run.violate("C07", "query_never_completes_with_event_thread", std::to_string(outstanding) + " request(s) outstanding, first " + who + ", but every thread sleeps without a deadline and nothing is in flight (now +" + std::to_string((W.now_us - run.cfg.t0_us) / 1000) + " ms): " + tt);
+  } else if (appwait) run.violate("C11", "lost_wakeup", "no request is outstanding but a thread still waits (queue-empty wait or join never released): " + tt);
+  else run.violate("C11", "quiescent_before_end", "scheduler quiescent before the run ended: " + tt);
+  finish_and_exit(run, 3);
+}
+void ops_too_many() {
+  Run &run = *g_mb->run;
+  run.violate("C11", "step_budget_exhausted", "scheduling-point budget exhausted (livelock or unbounded work): " + thread_table());
+  finish_and_exit(run, 3);
+}
+
+int pred_all_done(void *a) { Run *r = (Run *)a; return r->outstanding() == 0; }
+
+void exec_caller_step(Run &run, const Step &s, int thr) {
+  Chan &c = run.chans[0];
+  if (!c.alive) return;
+  run.steps_done++;
+  W.mix_shape(0x5B00 + (uint64_t)s.k * 7 + (uint64_t)thr);
+  switch (s.k) {
+    case S_REQ: run.submit(run.pick_kind(s.a), (int)s.b, (int)s.c, (int)(s.d % R_NREACT), (int)(s.d / R_NREACT), false, 0, (int)(s.d / (R_NREACT * K_NKINDS) + s.c / 7)); break;
+    case S_THINK: run.note("think"); sched_sleep_until(W.now_us + (int64_t)s.a * 1000); break;
+    case S_CANCEL: run.do_cancel(0); break;
+    case S_SETSRV: run.set_servers_variant((int)s.a); break;
+    case S_REINIT: run.do_reinit(0); break;
+    case S_SORTLIST: { static const char *sl[] = {"10.0.0.0/8", "fd00::/8", "192.0.2.0/24 10.128.0.0/9"}; W.api_seq++; ares_set_sortlist(c.ch, sl[(size_t)s.a % 3]); run.note("set_sortlist"); break; }
+    case S_LOCAL: { W.api_seq++; if (s.a & 1) ares_set_local_dev(c.ch, (s.a & 2) ? "eth1" : "eth0"); else ares_set_local_ip4(c.ch, 0xC0000250 + (unsigned)(s.a & 3)); run.note("set_local"); break; }
+    case S_QUERYINFO: {
+      W.api_seq++;
+      size_t n = ares_queue_active_queries(c.ch);
+      struct timeval tv, mx; mx.tv_sec = 1; mx.tv_usec = 0;
+      (void)ares_timeout(c.ch, (s.a & 1) ? &mx : nullptr, &tv);
+      run.note("queue_info");
+      (void)n;
+      break;
+    }
+    case S_DUP: {
+      ares_channel_t *copy = nullptr;
+      W.api_seq++;
+      int rc = ares_dup(&copy, c.ch);
+      run.note(rc == ARES_SUCCESS ? "dup_ok" : "dup_failed");
+      if (copy) ares_destroy(copy);
+      break;
+    }
+    case S_SAVEOPT: {
+      struct ares_options o; int mask = 0; memset(&o, 0, sizeof o);
+      W.api_seq++;
+      (void)ares_save_options(c.ch, &o, &mask);
+      ares_destroy_options(&o);
+      run.note("save_options");
+      break;
+    }
+    case S_CSVROUND: { W.api_seq++; char *csv = ares_get_servers_csv(c.ch); if (csv) ares_free_string(csv); run.note("get_servers_csv"); break; }
+    case S_FILE: { W.set_file("/etc/resolv.conf", run.cfg.resolv_conf + "options ndots:" + std::to_string(1 + s.a % 3) + "\n"); run.note("system_files_rewritten"); break; }
+    case S_INOTIFY: { W.inotify_event("resolv.conf"); run.note("inotify_event"); sched_point(WHY_IO); break; }
+    case S_WAITEMPTY: {
+      // (6) a successful wait needs an instant inside the call at which nothing was outstanding
+      int timeout = s.a % 3 == 0 ? -1 : (s.a % 3 == 1 ? (int)(s.b % 50) : 200 + (int)(s.b % 3000));
+      // "outstanding" = the accepting call has returned and no callback yet (a request another thread is still submitting
+      // is concurrent with this call, not outstanding before it)
+      int z0 = run.settled_zero_transitions;
+      bool empty_at_entry = run.settled_outstanding == 0;
+      W.api_seq++;
+      run.note(timeout < 0 ? "wait_empty_infinite" : "wait_empty_timed");
+      int64_t t0 = W.now_us;
+      int rc = ares_queue_wait_empty(c.ch, timeout);
+      if (rc == ARES_SUCCESS) {
+        run.note("wait_empty_success");
+        if (!empty_at_entry && run.settled_zero_transitions == z0 && run.settled_outstanding > 0) run.violate("C11", "wait_empty_success_while_outstanding", "ares_queue_wait_empty returned ARES_SUCCESS although " + std::to_string(run.settled_outstanding) + " request(s) were outstanding during the whole call");
+      } else if (rc == ARES_ETIMEOUT) {
+        run.note("wait_empty_timeout");
+        // observation only (the property does not speak about the accuracy of the timeout): the deadline's microsecond field
+        // is not normalised, so the wait can end up to a second early
+        if (timeout >= 0 && W.now_us - t0 < (int64_t)timeout * 1000) run.note("wait_empty_timed_out_early");
+      }
+      break;
+    }
+    default: break;
+  }
+}
+
+struct CallerArg { int thr; };
+void *caller_main(void *a) {
+  CallerArg *ca = (CallerArg *)a;
+  Run &run = *g_mb->run;
+  for (auto &s : g_mb->prog[(size_t)ca->thr]) {
+    if (!run.chans[0].alive) break;
+    exec_caller_step(run, s, ca->thr);
+    sched_point(WHY_APPWAIT);
+  }
+  return nullptr;
+}
+
+int64_t realtime_off() { return W.realtime_off_us; }
+
+}  // namespace
+
+int run_mode_b(const RunCfg &cfg, const std::vector<Step> &plan, const std::vector<int> *decisions, std::string &line_out) {
+  (void)line_out;
+  static MB mb;
+  g_mb = &mb;
+  static Run *runp = new Run(cfg);
+  Run &run = *runp;
+  mb.run = &run; mb.seed = cfg.seed;
+  run.plan = plan;
+  profile_attach(run);
+  g_run = &run;
+  run.setup_world();
+  W.on_tx = [&run](Tx &t) { for (auto &f : run.tx_obs) f(run, t); };
+  for (auto &f : run.world_ready) f(run);
+  // count instants at which the ledger becomes empty (for the queue-wait oracle)
+  auto prev_done = run.on_done;
+  run.on_done = [prev_done](Run &r, Req &q) { if (prev_done) prev_done(r, q); if (r.outstanding() == 0) g_mb->zero_transitions++; };
+  alloc_install();
+  g_alloc.reset(); g_alloc.active = true;
+
+  int nthreads = cfg.nthreads > 0 ? cfg.nthreads : 2;
+  mb.prog.assign((size_t)nthreads + 1, {});
+  for (auto &s : plan) { int t = s.thr >= 1 && s.thr <= nthreads ? s.thr : 1 + (int)((uint64_t)(s.a + s.b) % (uint64_t)nthreads); mb.prog[(size_t)t].push_back(s); }
+
+  struct sched_world_ops ops = {ops_now, ops_next_event, ops_advance, ops_quiescent, ops_too_many};
+  sched_realtime_off = realtime_off;
+  sched_init(cfg.seed * 2654435761ULL + 17, cfg.sched_policy, cfg.sched_preempt, &ops, 400000);
+  if (decisions) sched_set_decisions(decisions->data(), (int)decisions->size());
+
+  if (!run.make_channel(0)) { run.note("init_failed"); finish_and_exit(run, 0); }
+  std::vector<CallerArg> args((size_t)nthreads + 1);
+  for (int t = 1; t <= nthreads; t++) { args[(size_t)t].thr = t; std::string nm = "caller" + std::to_string(t); mb.tids.push_back(sched_spawn(caller_main, &args[(size_t)t], nm.c_str())); }
+  for (int tid : mb.tids) sched_join_tid(tid);
+  run.note("callers_joined");
+  // faults stop; every request still outstanding must complete on the event thread alone within its retry budget
+  W.faults_enabled = false; W.faults.clear();
+  for (auto &sv : W.servers) sv.cfg.partitioned = false;
+  run.faults_stopped_at = W.now_us;
+  {
+    long tries = run.eff_tries > 0 ? run.eff_tries : 3;
+    long nsrv = (long)run.cfg.servers.size() + 1;
+    long tmo = run.eff_timeout_ms > 0 ? run.eff_timeout_ms : 2000;
+    long maxt = run.eff_maxtimeout_ms > 0 ? run.eff_maxtimeout_ms : tmo * 8;
+    int64_t budget_ms = (int64_t)tries * nsrv * (maxt > tmo ? maxt : tmo) * 4 + 20000;
+    if (budget_ms > 3600000) budget_ms = 3600000;
+    int ok = sched_wait(pred_all_done, &run, W.now_us + budget_ms * 1000, WHY_APPWAIT);
+    if (!ok) {
+      std::string who;
+      for (auto &r : run.reqs) if (r.accepted && r.cb_count == 0) { who = std::to_string(r.token) + " (" + req_kind_name[r.kind] + " " + r.name + ")"; break; }
+      run.violate("C07", "query_outwaits_budget_with_event_thread", "request " + who + " still outstanding " + std::to_string(budget_ms) + " ms after the last application call with the event thread running (" + thread_table() + ")");
+    } else run.note("drained");
+    run.drained = ok != 0;
+  }
+  run.destroy_all();
+  run.note("destroyed");
+  int unjoined = sched_unjoined_lib_threads();
+  if (unjoined) run.violate("C11", "library_thread_not_joined", std::to_string(unjoined) + " thread(s) created by the library were not joined by the time ares_destroy returned: " + thread_table());
+  run.final_oracles();
+  if (run.at_end) run.at_end(run);
+  ares_library_cleanup();
+  g_alloc.active = false;
+  if (!g_alloc.live.empty()) run.note("leaked_allocations", (int64_t)g_alloc.live.size());
+  finish_and_exit(run, 0);
+}
